@@ -126,13 +126,24 @@ Definition dstep (is_uring : bool) (s : dst) (kind th arg : N) : option dst :=
       match dph s with P5 => Some s | _ => None end
     else None
   | 26%N => (* multishot poll ended *)
-    if drv && is_uring && negb (dneed s) then
+    if drv && is_uring then
       match dph s with
       | P5 => Some (mk_dst f true P5 (dnw s) (owing s) (nwakes s))
       | _ => None
       end
     else None
   | _ => None
+  end.
+
+(* a history given in the order of the atomic operations themselves *)
+Fixpoint dsteps (is_uring : bool) (s : dst) (es : list (N * N * N)) : option dst :=
+  match es with
+  | [] => Some s
+  | (k, th, a) :: r =>
+    match dstep is_uring s k th a with
+    | Some s' => dsteps is_uring s' r
+    | None => None
+    end
   end.
 
 (* ---------------------------------------------------------------------- *)
@@ -281,6 +292,24 @@ Definition relocate (a : ast) : option ast :=
   | _ => None
   end.
 
+(* reset with a NOTIFIED prior although the open phase holds no wake, while the
+   preceding phase of the same base (closed by a plain store) does: the
+   driver's store was logged late, those wakes came after it *)
+Definition pull_forward (a : ast) : option ast :=
+  match a_phases a with
+  | p :: q :: r =>
+    if negb (ph_first p || ph_debt p) && (ph_first q || ph_debt q) && N.eqb (ph_base p) (ph_base q)
+       && match ph_close q with CBySet => true | _ => false end
+    then
+      let p' := mk_ph (ph_id p) (ph_base p) (ph_first q) (ph_debt q) (ph_close p) in
+      let q' := mk_ph (ph_id q) (ph_base q) false false (ph_close q) in
+      Some (mk_ast (a_drv a) (p' :: q' :: r)
+                   (map (fun tk => if Nat.eqb (snd tk) (ph_id q) then (fst tk, ph_id p) else tk) (a_last a))
+                   (a_defer a))
+    else None
+  | _ => None
+  end.
+
 Definition astep_now (is_uring : bool) (a : ast) (kind th arg : N) : option ast :=
   match kind with
   | 22%N => place_wake a th arg
@@ -291,7 +320,10 @@ Definition astep_now (is_uring : bool) (a : ast) (kind th arg : N) : option ast 
     let a1 :=
       match a_phases a with
       | p :: _ => if negb n && (ph_first p || ph_debt p)
-                  then match relocate a with Some a' => a' | None => a end else a
+                  then match relocate a with Some a' => a' | None => a end
+                  else if n && negb (ph_first p || ph_debt p)
+                  then match pull_forward a with Some a' => a' | None => a end
+                  else a
       | [] => a
       end in
     match a_phases a1 with
